@@ -277,11 +277,33 @@ def r3_locale_consistency(ctx, prog):
         want = [(A("value@(fr,p1)"), A("values"), S("fr"), S("en"), A("p1")), (A("value@(en,p2)"), A("values"), S("en"), S("en"), A("p2")), (A("value@(fr,p3)"), A("values"), S("fr"), S("en"), A("p3"))]
         # (the inherits table, when the function has it, is handed on unchanged)
         log = [tuple(x for x in c if x != A("inherits")) for c in log if "extensions" not in pn or A("inherits") in c]
-        both = [c for c in log if c[0] == A("plural@(fr,p3)")]
         log = [c for c in log if c[0] != A("plural@(fr,p3)")]
-        if ctx.ast.fn(PM, "get_value_at_plural_path") is not None and len(both) != 1:
-            r.viol("R3:resolve_foreign_keys#both-candidates", "a recorded path that exists both as a key and as a form merged into a plural (`a_one` next to `a_one_one` / `a_one_other`) must have both values resolved: "
-                   "the plural candidate was resolved %d time(s)" % len(both), file=PM)
+        # a recorded path that exists both as a key and as a form merged into a plural (`a_one` next to `a_one_one` / `a_one_other`: the
+        # recorded `a_one` now names the other plural, the reference sits in a form of `a`): both values must be resolved.  Evaluated with
+        # the real lookup helper over concrete key paths
+        from rules.absint import CF as _CF
+        from rules import absint as _ab2
+        Kq = lambda n_: _CF("Key", name=S(n_))  # noqa: E731
+        KPq = lambda *ns: _CF("KeyPath", namespace=C("None"), path=L(*[Kq(x) for x in ns]))  # noqa: E731
+        store = {("grp", "a_one"): A("the-other-plural"), ("grp", "a"): A("the-plural-holding-the-form"), ("plain_key",): A("plain")}
+        log2 = []
+
+        def gva2(rv, a):
+            names_ = tuple(_ab2.fields_of(x)["name"][1] for x in _ab2.fields_of(a[1])["path"][1])
+            return C("Some", store[names_]) if names_ in store else C("None")
+        ev2 = AEval(funcs=_ab2.file_funcs(ctx.ast, PM), builtins={"resolve_foreign_key": lambda rv, a: (log2.append(rv), C("Ok", UNIT))[1], "get_value_at": gva2,
+                                                              "unwrap_at": lambda rv, a: (rv[2][0] if rv[0] == "ctor" and rv[1] in ("Some", "Ok") and rv[2] else rv)})
+        import re as _re2
+        ev2.path_builtins = {"Key::new": lambda a: C("Some", Kq(a[0][1])) if a[0][0] == "str" and _re2.match(r"^[A-Za-z_][A-Za-z0-9_]*$", a[0][1]) else C("None")}
+        pv2 = {"values": A("values"), "default_locale": S("en"), "foreign_keys_paths": L(T(S("en"), KPq("plain_key")), T(S("en"), KPq("grp", "a_one"))), "extensions": A("inherits")}
+        v2 = ev2.run_fn(fn, [pv2.get(x, A(x)) for x in pn])
+        if isinstance(v2, str):
+            r.viol("R3:resolve_foreign_keys#undecided", "cannot be interpreted on concrete key paths (%s): not decided (fail closed)" % v2[:200], file=PM)
+        elif sorted(map(repr, log2)) != sorted(map(repr, [A("plain"), A("the-other-plural"), A("the-plural-holding-the-form")])):
+            r.viol("R3:resolve_foreign_keys#both-candidates", "recorded paths `plain_key` and `grp.a_one` (where `grp.a_one` is now another merged plural and the recorded form sits in the plural `grp.a`): resolved %s; "
+                   "expected the plain key, and both the value now at `grp.a_one` and the plural `grp.a` - a reference left unresolved in a form panics code generation" % [_ab2.fmt(x) for x in log2], file=PM)
+        else:
+            r.inst("resolve_foreign_keys#both-candidates", "a recorded path shadowed by another merged plural: the value at the path and the plural holding the form are both resolved")
         if v == C("Ok", UNIT) and log == want:
             r.inst("resolve_foreign_keys", "for every recorded (locale, path): value.resolve_foreign_key(values, &locale, default_locale, &path)")
         else:
